@@ -75,6 +75,14 @@ for d in sorted(glob.glob(f"{V}/seeded/*/")):
     rep = rep.replace("|", "\\|")
     out.append(f"| {name} | {s} | {nm} | {v.get('existing_tests_pass_patched', '–')} | {det} | {rep} |")
 
+out.append("\n### 12.4 Property theorems as they stand (names read from lean/TexcraftModel/Props/Cxx.lean; every one is audited with `#print axioms` on every run)\n")
+for pid in ids:
+    pf = f"{V}/lean/TexcraftModel/Props/{pid}.lean"
+    if not os.path.exists(pf):
+        continue
+    names = re.findall(r"^theorem\s+([A-Za-z0-9_'.]+)", open(pf).read(), re.M)
+    out.append(f"* **{pid}** ({len(names)}): " + ", ".join("`%s`" % n for n in names))
+
 text = "\n".join(out) + "\n"
 p = f"{V}/DESIGN.md"
 s = open(p).read()
